@@ -103,6 +103,30 @@ fn permutation(n: usize, seed: u64) -> Vec<usize> {
 }
 
 pub fn build_bytes(t: &mut Tape) -> (Vec<u8>, bool) {
+    if t.chance(1, 8) {
+        // a tilemap layer whose tileset id matches none of >= 2 tilesets (must be rejected; if it is
+        // accepted, the binding must at least not depend on hash-map order)
+        let mut c = super::c08::cfg();
+        c.canvas_typ = 12;
+        c.max_tile = 4;
+        let mut s = build_sprite(t, &c);
+        if s.tilesets.len() >= 2 {
+            let mut k = 0u32;
+            for l in s.layers.iter_mut() {
+                if let crate::model::LayerKind::Tilemap { tileset } = &mut l.kind {
+                    // small ids that name no tileset (also exercises "index instead of id" readings)
+                    let mut cand = k;
+                    while s.tilesets.iter().any(|x| x.id == cand) {
+                        cand += 1;
+                    }
+                    *tileset = cand;
+                    k += 1;
+                }
+            }
+        }
+        let plan = build_plan(t);
+        return (encode(&s, &plan).bytes, true);
+    }
     if t.chance(1, 3) {
         // accepted-corrupted candidates
         let rest: Vec<u32> = (0..600).map(|_| t.raw()).collect();
